@@ -828,6 +828,13 @@ class Emit:
             ps = ', '.join(s.cty(t) for (t, _) in f.params)
             if f.va: ps = (ps + ', ...') if ps else ''
             elif not ps: ps = 'void'
+            if re.match(r'@_ZNK?St\d+(runtime_error|length_error|logic_error|out_of_range|invalid_argument|bad_alloc|exception)', n) and not f.va:
+                # members of the std exception classes: only reachable on error paths that end in a throw; reaching one is reported
+                ps2 = ', '.join(s.cty(t, 'a%d' % i) for i, (t, _) in enumerate(f.params)) or 'void'
+                tail.append(s.cty(f.ret, '%s(%s)' % (s.cname(n), ps2)) + ' { __verif_assert(0, "error path: std exception object used"); __verif_assume(0); %s} /* EXTERNAL-STUB %s */'
+                            % ('' if isinstance(f.ret, VoidTy) else 'return 0; ', n))
+                s.report['stubs_used'].add(n[1:])
+                continue
             tail.append('extern ' + s.cty(f.ret, '%s(%s)' % (s.cname(n), ps)) + '; /* EXTERNAL %s */' % n)
         for n in glob_order:
             g = m.globs[n]
